@@ -16,7 +16,6 @@ import SkVerif.Lemmas.SeriesRound
 import SkVerif.Lemmas.SeriesPhase
 import SkVerif.Lemmas.SeriesShift
 import SkVerif.Lemmas.SeriesMachine
-import SkVerif.Spec.HampelPos
 import SkVerif.Lemmas.HampelPos
 namespace SkVerif.C13
 open SkVerif SkVerif.ST SkVerif.Lem.ST
@@ -73,76 +72,70 @@ theorem deseason_inverse_roundtrip (s : Des) (hwf : DesWF s) (seas : List Rat) (
   · simp [hf] at h
 
 -- =============================================================================================
--- 2. the phase does not depend on the history — PARTIAL, see the two negations below
+-- 2. the phase does not depend on the history (full strength since repo commit 1ad9b8f)
 
-/-- operations of the proved part: transform / inverse_transform on anything, and `update` with a
-batch that is rejected or starts a multiple of the period away from the training start.  No re-fit. -/
-def AlignedOp (t0 : Int) (sp : Nat) : Op → Prop
-  | .update inp _ => ∀ z u v rest, checkSeries false inp = .ok z → z = (u, v) :: rest → (u - t0) % (sp : Int) = 0
-  | .transform _ _ => True
-  | .inverse _ _ => True
-  | _ => False
+/-- every call that is not a SUCCESSFUL re-fit: update / transform / inverse_transform on anything,
+and `fit` / `fit_transform` calls whose fit raises -/
+def KeepsTraining (s : Des) : Op → Prop
+  | .fit inp d => ∃ e, (desFit s inp d).2 = .err e
+  | .fitTransform inp d _ => ∃ e, (desFit s inp d).2 = .err e
+  | _ => True
 
 /-- the object after a history of calls -/
 def finalState (reg : Reg) (st : TState) (ops : List Op) : TState :=
   ops.foldl (fun st op => (step reg st op).1) st
 
-theorem aligned_op_keeps_reference (reg : Reg) (s : Des) (t0 : Int) (seas : List Rat) (h0 : PhaseRef s t0 seas)
-    (op : Op) (ha : AlignedOp t0 s.sp op) :
-    ∃ s', (step reg (.des s) op).1 = .des s' ∧ PhaseRef s' t0 seas ∧ s'.sp = s.sp ∧ s'.mult = s.mult := by
+/-- none of these calls changes the deseasonalizer: `update` only validates, a failing `fit`
+touches nothing, transform / inverse_transform are pure. -/
+theorem keeps_training_keeps_state (reg : Reg) (s : Des) (op : Op) (h : KeepsTraining s op) :
+    (step reg (.des s) op).1 = .des s := by
   cases op with
-  | fit inp d => exact absurd ha (by simp [AlignedOp])
-  | fitTransform inp d f => exact absurd ha (by simp [AlignedOp])
-  | update inp u =>
-    have := desUpdate_phaseRef s t0 seas h0 inp ha
-    exact ⟨_, rfl, this⟩
-  | transform inp f =>
-    refine ⟨(desTransform s false inp).1, rfl, ?_⟩
-    rw [desTransform_state]; exact ⟨h0, rfl, rfl⟩
-  | inverse inp f =>
-    refine ⟨(desTransform s true inp).1, rfl, ?_⟩
-    rw [desTransform_state]; exact ⟨h0, rfl, rfl⟩
+  | fit inp d =>
+    obtain ⟨e, he⟩ := h
+    simp only [step, stepBasic, desFit_error_state s inp d e he]
+  | fitTransform inp d f =>
+    obtain ⟨e, he⟩ := h
+    simp only [step, stepBasic, he, desFit_error_state s inp d e he]
+  | update inp u => simp only [step, stepBasic, desUpdate_state]
+  | transform inp f => simp only [step, stepBasic, desTransform_state]
+  | inverse inp f => simp only [step, stepBasic, desTransform_state]
 
-/-
-FULL STATEMENT (property text): after `fit` on a series starting at `t0`, for EVERY later history of
-update / transform / inverse_transform calls, transform / inverse_transform of a stretch of time
-remove / restore at label `l` the seasonal value of phase `(l - t0) mod sp`.
+theorem keeps_training_history (reg : Reg) (s : Des) (ops : List Op) (h : ∀ op ∈ ops, KeepsTraining s op) :
+    finalState reg (.des s) ops = .des s := by
+  induction ops with
+  | nil => rfl
+  | cons op ops ih =>
+    simp only [finalState, List.foldl_cons]
+    rw [keeps_training_keeps_state reg s op (h op List.mem_cons_self)]
+    exact ih (fun o ho => h o (List.mem_cons_of_mem _ ho))
 
-It is FALSE for the code as it stands (`phase_depends_on_unaligned_update`,
-`phase_depends_on_failed_refit` below): `Deseasonalizer.update` re-points `_y_index` at the batch, and
-`fit` stores `_y_index` before the decomposition can fail.  Proved here under the excluding
-hypothesis `AlignedOp` (accepted update batches start ≡ t0 mod sp; no re-fit in between).
--/
-theorem phase_independent_of_updates_partial (reg : Reg) (s : Des) (t0 : Int) (seas : List Rat)
-    (h0 : PhaseRef s t0 seas) (ops : List Op) (hops : ∀ op ∈ ops, AlignedOp t0 s.sp op)
+/-- **the property clause at full strength**: once the reference is the training start `t0`, after
+EVERY history of update / transform / inverse_transform calls (any inputs, any batch starts) and
+failing re-fits, transform / inverse_transform of a stretch of time remove / restore at label `l`
+the seasonal value of phase `(l - t0) mod sp`. -/
+theorem phase_independent_of_updates (reg : Reg) (s : Des) (t0 : Int) (seas : List Rat)
+    (h0 : PhaseRef s t0 seas) (ops : List Op) (hops : ∀ op ∈ ops, KeepsTraining s op)
     (inv : Bool) (t : Int) (z : Series) (hv : checkSeries false (.series z) = .ok z) (hc : Contiguous t z)
     (f : List Val → List Val) :
     (step reg (finalState reg (.des s) ops)
         (if inv then .inverse (.series z) f else .transform (.series z) f)).2
       = .ser (z.map (fun p => (p.1, desOp s.mult inv p.2 (phaseVal s.sp seas t0 p.1)))) := by
-  induction ops generalizing s with
-  | nil =>
-    obtain ⟨hf, hs, hwf, y0, hy, hm⟩ := h0
-    have := desTransform_contiguous s hwf seas y0 hf hs hy inv t z hv hc
-    have e : (fun p : Int × Val => (p.1, desOp s.mult inv p.2 (phaseVal s.sp seas t0 p.1)))
-        = (fun p : Int × Val => (p.1, desOp s.mult inv p.2 (phaseVal s.sp seas y0 p.1))) := by
-      funext p; rw [phaseVal_congr s.sp seas y0 t0 p.1 hm]
-    rw [e]
-    cases inv <;> simp only [finalState, List.foldl_nil, step, stepBasic, this, Bool.false_eq_true, ↓reduceIte]
-  | cons op ops ih =>
-    obtain ⟨s', hs', hp', hsp', hm'⟩ := aligned_op_keeps_reference reg s t0 seas h0 op (hops op List.mem_cons_self)
-    have := ih s' hp' (fun o ho => by rw [hsp']; exact hops o (List.mem_cons_of_mem _ ho))
-    simp only [finalState, List.foldl_cons, hs'] at this ⊢
-    rw [hsp', hm'] at this
-    exact this
+  rw [keeps_training_history reg s ops hops]
+  obtain ⟨hf, hs, hwf, y0, hy, hm⟩ := h0
+  have := desTransform_contiguous s hwf seas y0 hf hs hy inv t z hv hc
+  have e : (fun p : Int × Val => (p.1, desOp s.mult inv p.2 (phaseVal s.sp seas t0 p.1)))
+      = (fun p : Int × Val => (p.1, desOp s.mult inv p.2 (phaseVal s.sp seas y0 p.1))) := by
+    funext p; rw [phaseVal_congr s.sp seas y0 t0 p.1 hm]
+  rw [e]
+  cases inv <;> simp only [step, stepBasic, this, Bool.false_eq_true, ↓reduceIte]
 
-/-- the same, starting from the `fit` call: `fit(z₁) [update(zᵢ) | transform | inverse]* transform(z')`.
+/-- the same, starting from the `fit` call: `fit(z₁) [update | transform | inverse | failing fit]* transform(z')`.
 `t0` is the first label of the training series, `seas` the component statsmodels returned for it. -/
-theorem phase_after_fit_partial (reg : Reg) (s : Des) (hsp : 0 < s.sp) (inp : Input) (d : FitData)
+theorem phase_after_fit (reg : Reg) (s : Des) (hsp : 0 < s.sp) (inp : Input) (d : FitData)
     (hd : ∀ seas, d.seasonal = some seas → seas.length = s.sp)
     (hok : (step reg (.des s) (.fit inp d)).2 = .ok) :
     ∃ t0 seas v rest, checkSeries false inp = .ok ((t0, v) :: rest) ∧
-      ∀ (ops : List Op), (∀ op ∈ ops, AlignedOp t0 s.sp op) →
+      ∀ (ops : List Op), (∀ op ∈ ops, KeepsTraining (desFit s inp d).1 op) →
       ∀ (inv : Bool) (t : Int) (z : Series), checkSeries false (.series z) = .ok z → Contiguous t z →
       ∀ (f : List Val → List Val),
         (step reg (finalState reg (step reg (.des s) (.fit inp d)).1 ops)
@@ -153,31 +146,13 @@ theorem phase_after_fit_partial (reg : Reg) (s : Des) (hsp : 0 < s.sp) (inp : In
   subst hz1
   refine ⟨t0, seas, v, rest, hcs, ?_⟩
   intro ops hops inv t z hv hc f
-  have := phase_independent_of_updates_partial reg (desFit s inp d).1 t0 seas hp ops
-    (fun o ho => by rw [hsp']; exact hops o ho) inv t z hv hc f
+  have := phase_independent_of_updates reg (desFit s inp d).1 t0 seas hp ops hops inv t z hv hc f
   rw [hsp', hm'] at this
   simpa [step, stepBasic] using this
 
 /-- a fitted additive deseasonalizer, sp = 2, trained from label 0, seasonal component (1, -1) -/
 def witnessDes : Des :=
   { sp := 2, mult := false, cond := false, y0 := some 0, seasonal := some [1, -1], fitted := true }
-
-/-- NEGATION of the full statement (1): after `update` with a batch starting at label 3 (3 mod 2 ≠ 0)
-the component removed at label 0 is that of phase 1, not phase 0: the same one-point stretch
-transforms to -1 before and to +1 after the update. -/
-theorem phase_depends_on_unaligned_update :
-    (step polyReg (.des witnessDes) (.transform (.series [(0, some 0)]) id)).2 = .ser [(0, some (-1))]
-    ∧ (step polyReg (finalState polyReg (.des witnessDes) [.update (.series [(3, some 5)]) none])
-        (.transform (.series [(0, some 0)]) id)).2 = .ser [(0, some 1)] := by
-  constructor <;> decide +kernel
-
-/-- NEGATION of the full statement (2): a re-fit that raises (one observation, sp = 2: fewer than two
-periods) still moves the phase reference of the object, which stays fitted. -/
-theorem phase_depends_on_failed_refit :
-    (step polyReg (.des witnessDes) (.fit (.series [(3, some 5)]) {})).2 = .err .value
-    ∧ (step polyReg (finalState polyReg (.des witnessDes) [.fit (.series [(3, some 5)]) {}])
-        (.transform (.series [(0, some 0)]) id)).2 = .ser [(0, some 1)] := by
-  constructor <;> decide +kernel
 
 -- =============================================================================================
 -- 3. Detrender
@@ -465,21 +440,16 @@ theorem fit_transform_history (reg : Reg) (st : TState) (inp : Input) (d : FitDa
   simp only [run, finalState, List.foldl_cons, List.foldl_nil, h, this, and_self]
 
 -- =============================================================================================
--- 7. shifting the integer time index of all inputs — PARTIAL (HampelFilter excluded)
+-- 7. shifting the integer time index of all inputs (full strength since repo commit bc08df8)
 
-/-
-FULL STATEMENT (property text): for EVERY series transformer, shifting the labels of all inputs of a
-history by a constant shifts the labels of every output by the same constant and leaves all values
-(and all raised errors) unchanged.
-
-FALSE for HampelFilter as coded (`hampel_not_shift_equivariant`): `_hampel_filter` looks its windows
-up by label.  Proved for every other transformer of the model (`Positional`: no Hampel filter inside),
-for every call and every history, any regression `reg` inside the detrender, any library map `f`.
--/
-theorem shift_equivariance_partial (reg : Reg) (c : Int) (st : TState) (hp : Positional st) (op : Op) :
+/-- for EVERY series transformer of the model (deseasonalizers, detrender with any regression,
+Box-Cox / log / adaptor with any library map, OptionalPassthrough around any of them, HampelFilter),
+every state and every call: shifting the labels of the input — and of everything the object remembers —
+by `c` shifts the labels of the output by `c` and leaves values and raised errors unchanged. -/
+theorem shift_equivariance (reg : Reg) (c : Int) (st : TState) (op : Op) :
     step reg (shiftState c st) (shiftOp c op)
       = (shiftState c (step reg st op).1, shiftOut c (step reg st op).2) :=
-  step_shift reg c st hp op
+  step_shift reg c st op
 
 /-- a freshly constructed transformer remembers no label -/
 def Fresh : TState → Prop
@@ -504,46 +474,18 @@ theorem shiftState_fresh (c : Int) (st : TState) (h : Fresh st) : shiftState c s
   | pass p i h' fl ft ihp ihi => simp only [shiftState, ihp h.1, ihi h.2]
 
 /-- histories: the same calls with all labels shifted, on a fresh object, return the shifted results -/
-theorem shift_equivariance_history_partial (reg : Reg) (c : Int) (st : TState) (hp : Positional st)
-    (hfresh : Fresh st) (ops : List Op) :
+theorem shift_equivariance_history (reg : Reg) (c : Int) (st : TState) (hfresh : Fresh st) (ops : List Op) :
     run reg st (ops.map (shiftOp c)) = (run reg st ops).map (shiftOut c) := by
-  have := run_shift reg c st hp ops
+  have := run_shift reg c st ops
   rwa [shiftState_fresh c st hfresh] at this
 
-/-- NEGATION for HampelFilter (window 3, n_sigma 3, k 1): the same values on labels 0..4 and on
-labels 5..9: the first gives a result (the outlier 90 becomes NaN), the second raises KeyError. -/
-theorem hampel_not_shift_equivariant :
-    (step polyReg (.hampel ⟨3, 3, 1⟩ true)
-        (.transform (.series [(0, some 1), (1, some 90), (2, some 2), (3, some 3), (4, some 4)]) id)).2
-      = .ser [(0, some 1), (1, none), (2, some 2), (3, some 3), (4, some 4)]
-    ∧ (step polyReg (.hampel ⟨3, 3, 1⟩ true)
-        (shiftOp 5 (.transform (.series [(0, some 1), (1, some 90), (2, some 2), (3, some 3), (4, some 4)]) id))).2
-      = .err .key := by
-  constructor <;> decide +kernel
-
-/-- what remains true for HampelFilter: on a 0-based index (labels 0, 1, …, the only index on which
-it works) `_hampel_filter` computes exactly the positional specification `hampelPos` … -/
-theorem hampel_positional_at_origin_zero (cfg : HampelCfg) (z : Series) (h : BasedAt 0 z) :
-    hampel cfg z = hampelPos cfg z :=
-  hampel_eq_hampelPos cfg z h
-
-/-- … and that positional specification commutes with every shift of the index (values and error
-kinds unchanged), which is what the property asks of the filter. -/
-theorem hampelPos_shift_equivariant (cfg : HampelCfg) (c : Int) (z : Series) :
-    hampelPos cfg (shiftSeries c z) = (hampelPos cfg z).map (shiftSeries c) :=
-  hampelPos_shift cfg c z
+/-- HampelFilter returns exactly the input's index -/
+theorem hampel_index_preserved (cfg : HampelCfg) (z out : Series) (h : hampel cfg z = .ok out) :
+    labels out = labels z :=
+  hampel_labels cfg z out h
 
 -- =============================================================================================
 -- non-vacuity: concrete objects meeting the hypotheses
-
-example : BasedAt 0 [(0, some 1), (1, some 90), (2, none)] := by
-  intro i h
-  simp only [List.length_cons, List.length_nil] at h
-  match i, h with
-  | 0, _ => rfl
-  | 1, _ => rfl
-  | 2, _ => rfl
-
 
 example : DesWF witnessDes := ⟨by decide, by intro seas h; simp [witnessDes] at h; subst h; rfl⟩
 example : PhaseRef witnessDes 0 [1, -1] :=
@@ -557,16 +499,18 @@ example : Contiguous 7 [(7, some 1), (8, none), (9, some 3)] := by
   | 2, _ => rfl
 example : checkSeries false (.series [(7, some 1), (8, none), (9, some 3)]) = .ok [(7, some 1), (8, none), (9, some 3)] := by
   decide +kernel
-example : AlignedOp 0 2 (.update (.series [(4, some 1), (5, some 2)]) none) := by
-  intro z u v rest h1 h2
-  have := checkSeries_series_ok false _ z h1
-  subst this
-  simp only [List.cons.injEq, Prod.mk.injEq] at h2
-  obtain ⟨⟨hu, _⟩, _⟩ := h2
-  subst hu; decide
+example : KeepsTraining witnessDes (.update (.series [(3, some 5)]) none) := trivial
+example : KeepsTraining witnessDes (.fit (.series [(3, some 5)]) {}) := ⟨.value, by decide +kernel⟩
+-- regression: the witnesses of the two fixed defects now satisfy the property in the model
+example : (step polyReg (finalState polyReg (.des witnessDes) [.update (.series [(3, some 5)]) none])
+    (.transform (.series [(0, some 0)]) id)).2 = .ser [(0, some (-1))] := by decide +kernel
+example : (step polyReg (finalState polyReg (.des witnessDes) [.fit (.series [(3, some 5)]) {}])
+    (.transform (.series [(0, some 0)]) id)).2 = .ser [(0, some (-1))] := by decide +kernel
+example : (step polyReg (.hampel ⟨3, 3, 1⟩ true)
+    (shiftOp 5 (.transform (.series [(0, some 1), (1, some 90), (2, some 2), (3, some 3), (4, some 4)]) id))).2
+    = .ser [(5, some 1), (6, none), (7, some 2), (8, some 3), (9, some 4)] := by decide +kernel
 example : (desTransform witnessDes false (.series [(-3, some 5), (-2, some 5)])).2 = .ser [(-3, some 6), (-2, some 4)] := by
   decide +kernel
-example : Positional (.pass (.des witnessDes) (.des witnessDes) false false false) := ⟨trivial, trivial⟩
 example : Fresh (.det { degree := 1 }) := rfl
 example : Tagged (.col { kind := .boxcox }) := trivial
 example : (step polyReg (.det { degree := 1 }) (.fit (.series [(5, some 1), (6, some 3), (7, some 2)]) {})).2 = .ok := by
